@@ -21,7 +21,8 @@ class Client(kernel.Actor):
     kind = "client"
     weight_key = "client"
 
-    def __init__(self, world, idx, script, addr=None, slow=False, origin=""):
+    def __init__(self, world, idx, script, addr=None, slow=False, origin="", close_fails=False):
+        self.close_fails = close_fails
         self.world = world
         self.sim = world.sim
         self.idx = idx
@@ -90,6 +91,11 @@ class Client(kernel.Actor):
         self.closed = code
         self.closed_mono = self.sim.clock.mono
         self.transcript.append((self.sim.stamp(), "__CLOSE__%s" % code))
+        if self.close_fails:
+            # fault: the peer is already gone (half-open connection); the close frame cannot be sent
+            import falcon
+            self.sim.faults["ws_close_error"] += 1
+            raise falcon.WebSocketDisconnected()
 
     # -- actor ------------------------------------------------------------------------------
     @property
@@ -198,7 +204,8 @@ class RelayWorld:
         self.env.track_states = True
         self.clock_jumps = []
         self.clients = [Client(self, i, c["script"], addr=c.get("addr"), slow=c.get("slow", False),
-                               origin=c.get("origin", "")) for i, c in enumerate(clients)]
+                               origin=c.get("origin", ""), close_fails=c.get("close_fails", False))
+                        for i, c in enumerate(clients)]
         self.message_timeout = message_timeout
         self.rate_limits = rate_limits
         self.gc_interval = gc_interval
